@@ -72,6 +72,11 @@ OutcomeOk(wellformed, outcome) == IF wellformed THEN outcome = "ok" ELSE outcome
 (* Diagnosis of a scalar whose value changed: the shape of the difference, *)
 (* used to tell known defect classes from new ones (never to excuse one).  *)
 (***************************************************************************)
+\* a DocumentStart whose %TAG directives redefine one of the default handles `!` / `!!` (an input feature used to name a
+\* known defect class: a tag with a default prefix written in such a document)
+\* (node / value level observations carry the %TAG option of the call in the uncompared field "otags")
+RedefinesDefault(ds) == LET tg == Norm(ds).tags \o Fld(ds, "otags", <<>>) IN \E j \in DOMAIN tg : tg[j][1] \in {<<33>>, <<33, 33>>}
+
 SP == 32  LF == 10  NEL == 133  BSL == 92
 Brk == {10, 133, 8232, 8233}
 LineStart(a, j) == LET ks == {k \in 1 .. j - 1 : a[k] \in Brk}
